@@ -12,7 +12,7 @@ from ..resolve import UNKNOWN, fold
 from ..solver import Machine, Violation
 from ..solver import run as solve
 from .c17 import always_raises, handler_types
-from .common import areas
+from .common import areas, list_elements
 
 BACKUP = 'backup_utils:backup_container'
 ORDER = ['loose', 'dump', 'index-copy', 'packs', 'rest']
@@ -279,11 +279,12 @@ def run(ctx, host=None):
                 ex = next((k.value for k in n.keywords if k.arg == 'extra_args'), None)
                 if ex is None:
                     continue
-                if not isinstance(ex, (ast.List, ast.Tuple)):
-                    badopt.append((ex, f'non-literal extra_args `{norm(ex)}`'))
+                ex_elts = list_elements(prog, f2, ex)
+                if ex_elts is None:
+                    badopt.append((ex, f'extra_args `{norm(ex)}` is not a list this check can enumerate (a display, or a local built by unconditional statements)'))
                     continue
                 prev_excl = False
-                for el in ex.elts:
+                for el in ex_elts:
                     v = fold(prog, el, f2, {})
                     if prev_excl:
                         prev_excl = False
@@ -345,8 +346,8 @@ def run(ctx, host=None):
     if rest is not None:
         call = rest.ast
         extra = next((k.value for k in call.keywords if k.arg == 'extra_args'), None)
-        chk.require(isinstance(extra, (ast.List, ast.Tuple)), 'final rsync call: extra_args is not a literal list: cannot evaluate the exclude patterns')
-        elts = list(extra.elts)
+        elts = list_elements(prog, fn, extra) if extra is not None else None
+        chk.require(elts is not None, 'final rsync call: extra_args is not a list this check can enumerate: cannot evaluate the exclude patterns')
         patterns = []
         i = 0
         fr = g.top
